@@ -91,14 +91,31 @@ func TestC15_TickerCollector(t *testing.T) {
 		clock := &sim.Clock{}
 		var seq atomic.Int64
 		conn := sim.NewConn(clock, &seq)
-		opts := []stun.ClientOption{stun.WithTimeoutRate(time.Millisecond), stun.WithRTO(time.Duration(1+i%3) * time.Millisecond)}
+		rate := time.Millisecond
+		if i%7 == 3 {
+			rate = time.Hour // Close must not depend on the next tick
+		}
+		rto := time.Duration(1+i%3) * time.Millisecond
+		switch i % 11 {
+		case 5:
+			rto = 0 // "use the default"
+		case 9:
+			rto = -time.Millisecond // nonsensical but accepted: every deadline is already in the past
+		}
+		opts := []stun.ClientOption{stun.WithTimeoutRate(rate), stun.WithRTO(rto)}
 		if i%2 == 0 {
 			opts = append(opts, stun.WithClock(clock))
 		}
 		if i%5 == 0 {
 			opts = append(opts, stun.WithNoConnClose())
 		}
-		c, err := stun.NewClient(conn, opts...)
+		var c *stun.Client
+		var err error
+		if perr := pbt.Safely(func() { c, err = stun.NewClient(conn, opts...) }); perr != nil {
+			pbt.Fail(t, rec, "ticker", map[string]int{"i": i}, "NewClient (tick rate %v, RTO %v): %v", rate, rto, perr)
+
+			return
+		}
 		if err != nil {
 			t.Fatalf("NewClient: %v", err)
 		}
